@@ -54,7 +54,7 @@ func genPowers(r *rand.Rand, n int) []int64 {
 
 func genAppMsg(r *rand.Rand, nv, nc int, chainInfoOnly bool) appMsg {
 	m := appMsg{Val: r.Intn(nv), Chain: r.Intn(nc)}
-	k := r.Intn(34)
+	k := r.Intn(36)
 	if chainInfoOnly {
 		k = 4 + r.Intn(6)
 	}
@@ -105,6 +105,9 @@ func genAppMsg(r *rand.Rand, nv, nc int, chainInfoOnly bool) appMsg {
 		m.Kind, m.Msg, m.Data, m.Gas = "pubdata", r.Intn(6), fmt.Sprintf("txhash%d", r.Intn(3)), uint64(r.Intn(3))
 	case k < 29:
 		m.Kind, m.Msg, m.Data = "errdata", r.Intn(6), "boom"
+	case k >= 34:
+		// governance changes the list of gas exempt addresses (read by the ante chain)
+		m.Kind, m.Data = "gasexempt", []string{"", "0", "1,2", fmt.Sprint(r.Intn(nv)), "0,1,2,3"}[r.Intn(5)]
 	default:
 		m.Kind, m.Msg = "evidence", r.Intn(6)
 		m.Data = []string{"e1", "e1", "e2", "tx:garbage"}[r.Intn(4)]
@@ -249,6 +252,7 @@ func genAppScript(run *emit.Run, nBlocks int) *appScript {
 		}
 		sc.Blocks = append(sc.Blocks, appBlock{Height: h, Time: t, Txs: txs, Restart: r.Intn(4) == 0, Quiet: r.Intn(3) == 0})
 	}
+	slowNext := false
 	randTxs := func() []appTx {
 		var txs []appTx
 		for k := r.Intn(4); k > 0; k-- {
@@ -276,12 +280,27 @@ func genAppScript(run *emit.Run, nBlocks int) *appScript {
 			txs = append(cont[1], txs...)
 		}
 		if i == 3 {
+			// a queue of messages in front of the one that will be attested
+			for k := 2 + r.Intn(4); k > 0; k-- {
+				txs = append(txs, appTx{Msgs: []appMsg{{Kind: "slc", Chain: att[0][0].Msgs[0].Chain, Data: fmt.Sprintf("w%d", k)}}})
+			}
 			txs = append(txs, att[0]...)
 		}
 		if i == 4 {
 			txs = append(att[1], txs...)
+			slowNext = true
 		}
 		add(txs)
+		if slowNext { // the block in which the evidence arrives: the slow twin is slow in one of its end blockers (mostly consensus)
+			slowNext = false
+			lb := &sc.Blocks[len(sc.Blocks)-1]
+			// an episode of 8 slow logger calls somewhere in the blocker (the consensus end blocker makes about 40 calls before it
+			// looks at evidence, then about 10 per queued message)
+			lb.Slow, lb.SlowAt, lb.SlowFrom = true, 1, 40+8*r.Intn(6)
+			if r.Intn(3) == 0 {
+				lb.SlowAt, lb.SlowFrom = r.Intn(7), 8*r.Intn(8)
+			}
+		}
 		step()
 	}
 	// the pruning block: first multiple of 50 more than 300 blocks later
@@ -383,7 +402,46 @@ func corpusAppScripts() []*appScript {
 			{Height: 20, Time: 1_700_000_136, Restart: true, Txs: nil},
 		},
 	}
-	return []*appScript{a, b, c, d, e}
+	// (7) seeded C08-G: five messages queued, evidence from 3 of 4 validators for the NEWEST one; the slow twin is slow (8 logger
+	// calls of 150 ms, from the 48th call on: the attestation round starts at about the 41st and makes many more) while it runs
+	// the consensus end blocker of that block.  What gets attested in a block must not depend on how long it took.
+	slcs := func(n int) []appTx {
+		var txs []appTx
+		for k := 0; k < n; k++ {
+			txs = append(txs, appTx{Msgs: []appMsg{{Kind: "slc", Data: fmt.Sprintf("m%d", k)}}})
+		}
+		return txs
+	}
+	g := &appScript{
+		Genesis: appGenesis{Powers: []int64{10, 10, 10, 10}, NChains: 1, Fees: [][]string{{"1.0"}, {"2.0"}, {"2.0"}, {"2.0"}},
+			Traits: [][]string{nil, nil, nil, nil}, Weights: [5]string{"1.0", "0", "0", "0", "0"}},
+		Blocks: []appBlock{
+			{Height: 2, Time: 1_700_000_100, Txs: slcs(5)},
+			{Height: 3, Time: 1_700_000_104, Slow: true, SlowAt: 1, SlowFrom: 48, Txs: []appTx{
+				{Msgs: []appMsg{{Kind: "estimate", Val: 0, Msg: -1, Gas: 21000}}},
+				{Msgs: []appMsg{{Kind: "pubdata", Val: 0, Msg: -1, Data: "txhash", Gas: 1}}},
+				{Msgs: []appMsg{{Kind: "evidence", Val: 0, Msg: -1, Data: "e1"}}},
+				{Msgs: []appMsg{{Kind: "evidence", Val: 1, Msg: -1, Data: "e1"}}},
+				{Msgs: []appMsg{{Kind: "evidence", Val: 2, Msg: -1, Data: "e1"}}}}},
+			{Height: 4, Time: 1_700_000_108, Txs: nil},
+		},
+	}
+	// (8) seeded C08-H: a transaction, then governance makes validator 0's account gas exempt, a restart, and transactions of
+	// validator 0 and 1: gas used (0 for the exempt payer) must be the same on the node that kept running and the restarted one;
+	// then the exemption is withdrawn again.
+	st := func(v int, d string) appTx { return appTx{Msgs: []appMsg{{Kind: "status", Val: v, Data: d, Level: 1}}} }
+	h := &appScript{
+		Genesis: appGenesis{Powers: []int64{10, 10, 10}, NChains: 1, Fees: [][]string{{"1.0"}, {"2.0"}, {"2.0"}},
+			Traits: [][]string{nil, nil, nil}, Weights: [5]string{"1.0", "0", "0", "0", "0"}},
+		Blocks: []appBlock{
+			{Height: 2, Time: 1_700_000_100, Txs: []appTx{st(0, "a"), {Msgs: []appMsg{{Kind: "keepalive", Val: 1, Data: "v9.9.9"}}}}},
+			{Height: 3, Time: 1_700_000_102, Txs: []appTx{{Msgs: []appMsg{{Kind: "gasexempt", Data: "0"}}}}},
+			{Height: 4, Time: 1_700_000_104, Restart: true, Txs: []appTx{st(0, "b"), st(1, "c"), {Msgs: []appMsg{{Kind: "keepalive", Val: 0, Data: "v9.9.9"}}}}},
+			{Height: 5, Time: 1_700_000_106, Txs: []appTx{{Msgs: []appMsg{{Kind: "gasexempt", Data: ""}}}, st(0, "d")}},
+			{Height: 6, Time: 1_700_000_108, Restart: true, Txs: []appTx{st(0, "e")}},
+		},
+	}
+	return []*appScript{a, b, c, d, e, g, h}
 }
 
 // ---- parent side ----
@@ -411,6 +469,9 @@ func runAppChild(dir string, sc *appScript, e twinEnv, tag string) ([]blockOut, 
 		env = append(env, "C08_RESTART=all")
 	} else if e.Restart {
 		env = append(env, "C08_RESTART=1")
+	}
+	if e.Slow {
+		env = append(env, "C08_SLOW=1")
 	}
 	env = append(env, flagEnv(e)...)
 	cmd.Env = env
